@@ -295,6 +295,8 @@ def decode(v):
             return tuple(decode(x) for x in v['$tuple'])
         if '$complex' in v:
             return complex(v['$complex'][0], v['$complex'][1])
+        if '$nd' in v:
+            return np.array(v['$nd'], dtype=v.get('dtype', float))
         if '$frac' in v:
             return float(Fraction(v['$frac'][0]) / Fraction(v['$frac'][1]))
         return {k: decode(x) for k, x in v.items()}
@@ -484,7 +486,7 @@ class Interp:
         out = self.call(ev)
         if out.ok and ev.get('id'):
             self.store[ev['id']] = out.value
-            self.meta[ev['id']] = {'at': i, 'c': ev.get('c', 0), 'fn': ev['fn']}
+            self.meta[ev['id']] = {'at': i, 'c': ev.get('c', 0), 'fn': ev['fn'], 'kw': sorted(ev.get('k', {}))}
         self.history.append((i, ev.get('c', 0), ev['fn'], out.brief(self.dig)))
         if self.hooks is not None:
             self.hooks.after(self, i, ev, out)
@@ -516,9 +518,14 @@ class Interp:
         elif kind == 'perturb':
             tid = ev['target'].lstrip('@')
             a = self.store.get(tid)
-            if isinstance(a, np.ndarray) and a.flags.writeable and a.size:
+            if ev.get('unshared') and isinstance(a, np.ndarray) and self._shared(tid, a):
+                self.probe('perturb_skipped_shared')
+            elif isinstance(a, np.ndarray) and a.flags.writeable and a.size and a.dtype.kind in 'fc':
                 g = np.random.Generator(np.random.PCG64(int(ev.get('seed', 0))))
-                a[...] = a + ev.get('scale', 1.0) * g.normal(size=a.shape)
+                scale = ev.get('scale')
+                if scale is None:
+                    scale = 0.37 * (float(np.max(np.abs(a))) or 1.0)
+                a[...] = a + scale * g.normal(size=a.shape)
                 self.fault('caller_write')
                 if self.hooks is not None and hasattr(self.hooks, 'on_dirty'):
                     self.hooks.on_dirty(self, tid)
@@ -535,6 +542,30 @@ class Interp:
                 self.fault('freeze')
         else:
             raise HarnessError('unknown env event %r' % (ev,))
+
+    def _arrays_of(self, obj):
+        L = self.L
+        if isinstance(obj, np.ndarray):
+            return [obj]
+        if isinstance(obj, L.Plane):
+            return [x for x in (obj.amplitude, obj.opd, obj.mask) if isinstance(x, np.ndarray)]
+        if isinstance(obj, L.Wavefront):
+            return [f.data for f in obj.data]
+        if isinstance(obj, L.radiometry.Spectrum):
+            return [x for x in (obj.wave, obj.value) if isinstance(x, np.ndarray)]
+        if isinstance(obj, (list, tuple)):
+            return [x for x in obj if isinstance(x, np.ndarray)]
+        return []
+
+    def _shared(self, tid, a):
+        """Does any OTHER store entry share memory with array `a` (a view of a caller array, an alias)?"""
+        for k, o in self.store.items():
+            if k == tid:
+                continue
+            for b in self._arrays_of(o):
+                if b is a or np.may_share_memory(a, b):
+                    return True
+        return False
 
     def history_digest(self):
         h = hashlib.sha1()
